@@ -53,6 +53,7 @@ type Check struct {
 	// RoleKeys: obligations reported while set are keyed by rule + construct only (the construct names a role,
 	// so the key survives moving the code between functions)
 	RoleKeys bool
+	seenOb   map[string]bool
 }
 
 func NewCheck(p *Prog, prop string) *Check {
@@ -106,6 +107,15 @@ func (c *Check) Use(id string, fn *ssa.Function, what string) bool {
 
 func (c *Check) add(o Ob) {
 	o.Config = c.P.Cfg.Label
+	// the same rule instance reported again under another obligation id (rule groups shared between properties): keep the first
+	k := o.Rule + "|" + o.Func + "|" + o.Pos + "|" + o.Construct + "|" + string(o.Verdict)
+	if c.seenOb == nil {
+		c.seenOb = map[string]bool{}
+	}
+	if o.Rule != "ANCHOR" && c.seenOb[k] {
+		return
+	}
+	c.seenOb[k] = true
 	c.Obs = append(c.Obs, o)
 }
 
